@@ -285,3 +285,6 @@ def run(ctx):  # noqa: F811
     # outcomes and verdict), with --shuffle so that the order is not the discovery order
     from harness import corr_c03
     corr_c03.shuffle_modes(ctx, n=4 if ctx.quick() else 60)
+    # "each layer's output": the real collectors keep every line of a child that is not a keep-alive line of dots
+    from harness import corr_channel
+    corr_channel.stdout_cases(ctx)
